@@ -495,6 +495,75 @@ Proof.
 Qed.
 End C03CommentExample.
 
+(* ... and with a COUNTER: `c FOR count` over unlabelled instruction and comment lines whose operands use the counter: when the
+   lines in front, the body written out with the counter replaced by 1, 2, ... count in its operand tokens (subst_elem), and
+   the lines behind render a program with a meaning, the text with the block is assembled to that meaning *)
+Theorem C03_programs_with_counter_for_partial :
+  forall spell cfg org (its : list Prog.item) es1 bodyEs es2 lead c count n forw rofw skip nm au code start inp toks rkN,
+    let es := es1 ++ concat (map (fun j => map (sek c j) bodyEs) (nseq 1 (S n))) ++ es2 in
+    validate cfg = true ->
+    spell_ok spell (flat_map il_labels (instrs its) ++ map fst (equs its)) ->
+    renders_doc2 spell org its es -> shape2_ok es -> Forall (fun xk => (1 <= snd xk)%nat) es ->
+    ranked spell (equs its) rkN ->
+    bodies_known cfg its ->
+    meaning (mconf_of cfg) (mkProg its org None nm au []) = MOk code start ->
+    Forall (fun xk => junk_free (fst xk)) es1 -> Forall (fun xk => flat_elem (fst xk)) bodyEs -> is_label c ->
+    t_typ forw = tokText -> tok_is_pseudo forw = true -> lower_is (t_val forw) "for" = true -> Forall plain_tok count ->
+    t_typ rofw = tokText -> tok_is_pseudo rofw = true -> lower_is (t_val rofw) "for" = false -> lower_is (t_val rofw) "rof" = true ->
+    Forall plain_tok skip ->
+    (forall syms, front_symbols (doc_plines lead es1) = Some syms ->
+       expand_and_evaluate (filter noncomment count) (with_constants cfg syms) = Some (EOk (Z.of_nat (S n)))) ->
+    lex_ascii inp = Some toks -> counts_modelled toks None = true ->
+    toks = repeat nl_tok lead ++ body es1 ++ (mkT tokText c :: forw :: count ++ [nlt]) ++ body bodyEs ++ rofw :: skip ++ (nlt :: body es2 ++ [tEOF]) ->
+    compile_warrior cfg inp = COk code start (dmeta (mkPM [] [] []) es).
+Proof. exact counter_for_program. Qed.
+Print Assumptions C03_programs_with_counter_for_partial.
+
+Module C03CounterExample.
+Import C03ForExample.
+Definition spellc (id : N) : text := if (id =? 30)%N then s2t "i" else spell id.
+Definition l_addj (j : Z) := mkIL [] ADD None (mkOp (Some IMMEDIATE) (NLit j)) (Some (mkOp None (NBin OAdd (NName 10) (NLit j)))).
+Definition its : list Prog.item := [ IEqu 20 (NLit 2); IInstr l_mov; IInstr (l_addj 1); IInstr (l_addj 2); IInstr (l_addj 3); IInstr l_dat ].
+Definition bodyEs : list (lelem * nat) :=
+  [ (LInstr (mkTL [] (s2t "add") (Some 35%N) (etoks spellc (NName 30)) (Some (None, etoks spellc (NBin OAdd (NName 10) (NName 30)))) None), 1%nat) ].
+Definition source : text :=
+  s2t "step equ 2" ++ [10%N] ++ s2t "start mov bomb, @step" ++ [10%N] ++ s2t "i for step+1" ++ [10%N]
+  ++ s2t "  add #i, start+i" ++ [10%N] ++ s2t "  rof" ++ [10%N] ++ s2t "bomb dat #0, #0" ++ [10%N].
+Definition toks : list token :=
+  repeat nl_tok 0 ++ body es1 ++ (T (s2t "i") :: T (s2t "for") :: etoks spell e_count ++ [nlt]) ++ body bodyEs ++ T (s2t "rof") :: [] ++ (nlt :: body es2 ++ [tEOF]).
+Definition code : list instr :=
+  [mkI MOV mI 4 DIRECT 2 B_INDIRECT; mkI ADD mAB 1 IMMEDIATE 0 DIRECT; mkI ADD mAB 2 IMMEDIATE 0 DIRECT;
+   mkI ADD mAB 3 IMMEDIATE 0 DIRECT; mkI DAT mF 0 IMMEDIATE 0 IMMEDIATE].
+
+Example conclusion : compile_warrior cfg94 source =
+  COk code 0 (dmeta (mkPM [] [] []) (es1 ++ concat (map (fun j => map (sek (s2t "i") j) bodyEs) (nseq 1 3)) ++ es2)).
+Proof.
+  apply (C03_programs_with_counter_for_partial spell cfg94 None its es1 bodyEs es2 0%nat (s2t "i") (etoks spell e_count) 2%nat
+           (T (s2t "for")) (T (s2t "rof")) [] None None code 0%Z source toks rkN); try reflexivity.
+  - constructor.
+    + repeat split; reflexivity.
+    + intros id Hid. cbn in Hid. destruct Hid as [<-|[<-|[<-|[]]]]; (split; [reflexivity|]); cbn; intros H;
+        repeat (destruct H as [H|H]; [discriminate H|]); exact H.
+    + intros a b Ha Hb. cbn in Ha, Hb. destruct Ha as [<-|[<-|[<-|[]]]], Hb as [<-|[<-|[<-|[]]]]; try reflexivity; intros H; discriminate H.
+    + cbn. repeat constructor; cbn; intuition discriminate.
+    + intros id. unfold spell, C03EquExample.spell. repeat (destruct (_ =? _)%N); discriminate.
+  - apply R2equ; [reflexivity|reflexivity|repeat constructor; cbn; lia|].
+    apply R2instr; [repeat split; reflexivity|].
+    do 3 (apply R2instr; [repeat split; try reflexivity; cbn; lia|]).
+    apply R2instr; [repeat split; try reflexivity; cbn; lia|apply R2nil].
+  - repeat constructor.
+  - repeat constructor.
+  - intros n e Hin x Hx. cbn in Hin. destruct Hin as [Hin|[]]. inversion Hin; subst n e. destruct Hx.
+  - unfold bodies_known. cbn [equs its]. repeat constructor.
+  - repeat constructor.
+  - repeat constructor.
+  - split; reflexivity.
+  - repeat constructor; cbn; discriminate.
+  - constructor.
+  - intros syms H. vm_compute in H. inversion H; subst syms. vm_compute. reflexivity.
+Qed.
+End C03CounterExample.
+
 (* missing from C03_full_statement: that the token-level relation `unrolls` holds between the rendering of every abstract
    program with FOR blocks and the rendering of its Render.unroll (C08), ;assert lines (C07), and EQU definitions together
    with an END line.  These, and the composition of all of them, are decided on every run by the
